@@ -26,9 +26,10 @@ var ckMode bool
 
 // the stream behind a `*T` variable, and the words behind a stream variable
 type ckState struct {
-	streamOf map[string]string // t  -> s
-	dataOf   map[string]string // s  -> name of the variable that holds s.data after the run
-	lastOnce string            // the stream of the last test case that was run
+	streamOf     map[string]string // t  -> s
+	dataOf       map[string]string // s  -> name of the variable that holds s.data after the run
+	lastOnce     string            // the stream of the last test case that was run
+	prunePending bool              // s.rec = sN.recordedBits has been seen, s.rec.prune() must follow
 }
 
 func (m *imp) ckInit() {
@@ -99,7 +100,7 @@ func (m *imp) ckStmt(st ast.Stmt, rest func() string) (string, bool) {
 			}
 			return m.ckBind("(Go.CM.load "+f+")", []string{names[0], names[2], names[3]}, []gty{"str", "[]u64", "err"}, rest), true
 		case "newBufBitStream":
-			if exprText(m.p.fset, call.Args[1]) != "false" {
+			if exprText(m.p.fset, call.Args[1]) != "false" && m.recvTy != "shrinker" {
 				panic("translate(check): a recording buffer stream")
 			}
 			b, _ := m.expr(call.Args[0], "[]u64")
@@ -120,11 +121,20 @@ func (m *imp) ckStmt(st ast.Stmt, rest func() string) (string, bool) {
 			m.ckSt.streamOf[names[0]] = sid.Name
 			return rest(), true
 		case "checkOnce":
-			tid, ok := call.Args[0].(*ast.Ident)
-			if !ok || m.ckSt.streamOf[tid.Name] == "" {
+			tname := ""
+			if tid, ok := call.Args[0].(*ast.Ident); ok {
+				tname = tid.Name
+			} else if fn2, c2 := callName(m.p, call.Args[0]); fn2 == "newT" {
+				// checkOnce(newT(tb, s, …, nil), prop)
+				if sid, ok := c2.Args[1].(*ast.Ident); ok && m.t.env[sid.Name] == "sspec" && exprText(m.p.fset, c2.Args[3]) == "nil" {
+					tname = "t_" + sid.Name
+					m.ckSt.streamOf[tname] = sid.Name
+				}
+			}
+			if tname == "" || m.ckSt.streamOf[tname] == "" {
 				panic("translate(check): checkOnce on a T that was not made here")
 			}
-			s := m.ckSt.streamOf[tid.Name]
+			s := m.ckSt.streamOf[tname]
 			d := s + "_data"
 			m.ckSt.dataOf[s] = d
 			m.ckSt.lastOnce = s
@@ -155,6 +165,9 @@ func (m *imp) ckStmt(st ast.Stmt, rest func() string) (string, bool) {
 
 func (m *imp) ckExpr(e ast.Expr, want gty) (string, gty, bool) {
 	m.ckInit()
+	if s, ty, ok := m.acExpr(e, want); ok {
+		return s, ty, true
+	}
 	switch x := e.(type) {
 	case *ast.BasicLit:
 		if x.Kind == token.STRING {
@@ -228,6 +241,109 @@ func (m *imp) ckExpr(e ast.Expr, want gty) (string, gty, bool) {
 			a, ta := m.expr(x.Args[0], "")
 			b, _ := m.expr(x.Args[1], ta)
 			return "(" + a + " ++ " + b + ")", ta, true
+		}
+	}
+	return "", "", false
+}
+
+// ---- shrinker.accept (check mode with the shrinker's fields as state)
+//
+//	bufStr := dataStr(buf); _, ok := s.cache[bufStr]; s.cache[bufStr] = struct{}{}   the cache as a list of candidates
+//	s.tries[label]++, s.debugf(…), if flags.debugvis {…}                             nothing (statistics, debug output)
+//	traceback(a) != traceback(b)                                                      the model's tbKey
+//	s.rec = s2.recordedBits; s.rec.prune()                                            the request `pruned` (prune of the recording of the
+//	                                                                                  last test case; its assertion is a panic)
+//	panic(err2)                                                                       the panic `mismatch`
+
+func (m *imp) acStmt(list []ast.Stmt, c ictx, rest func() string) (string, bool) {
+	if m.recvTy != "shrinker" {
+		return "", false
+	}
+	text := func(n ast.Node) string { return nodeText(m.p.fset, n) }
+	switch x := list[0].(type) {
+	case *ast.AssignStmt:
+		if len(x.Lhs) == 1 && len(x.Rhs) == 1 {
+			if fn, call := callName(m.p, x.Rhs[0]); fn == "dataStr" {
+				b, _ := m.expr(call.Args[0], "[]u64")
+				name := x.Lhs[0].(*ast.Ident).Name
+				m.t.env[name] = "[]u64"
+				return fmt.Sprintf("let %s : (List UInt64) := %s\n  %s", name, b, rest()), true
+			}
+			// s.cache[bufStr] = struct{}{}
+			if ix, ok := x.Lhs[0].(*ast.IndexExpr); ok && text(ix.X) == m.recv+".cache" {
+				k, _ := m.expr(ix.Index, "[]u64")
+				v := m.fieldVar("cache")
+				return fmt.Sprintf("let %s : (List (List UInt64)) := (%s :: %s)\n  %s", v, k, v, rest()), true
+			}
+			// s.rec = s2.recordedBits; s.rec.prune()
+			if text(x.Lhs[0]) == m.recv+".rec" && strings.HasSuffix(text(x.Rhs[0]), ".recordedBits") {
+				sname := strings.TrimSuffix(text(x.Rhs[0]), ".recordedBits")
+				if m.ckSt.lastOnce != sname || len(list) < 2 || text(list[1]) != m.recv+".rec.prune()" {
+					panic("translate(accept): s.rec is not the pruned recording of the last test case")
+				}
+				m.ckSt.prunePending = true
+				return rest(), true
+			}
+		}
+	case *ast.ExprStmt:
+		if text(x.X) == m.recv+".rec.prune()" {
+			if !m.ckSt.prunePending {
+				panic("translate(accept): prune of something else than the recording of the last test case")
+			}
+			m.ckSt.prunePending = false
+			return fmt.Sprintf("Go.CM.pruned >>= fun %s =>\n  %s", m.fieldVar("rec_data"), rest()), true
+		}
+		if fn, call := callName(m.p, x.X); fn == "panic" && call != nil {
+			if e, ty := m.expr(call.Args[0], ""); ty == "errv" {
+				_ = e
+				return m.lift("(.error .mismatch)"), true
+			}
+		}
+	case *ast.IncDecStmt:
+		if ix, ok := x.X.(*ast.IndexExpr); ok && text(ix.X) == m.recv+".tries" {
+			return rest(), true
+		}
+	case *ast.IfStmt:
+		if x.Init == nil && text(x.Cond) == "flags.debugvis" && x.Else == nil {
+			return rest(), true
+		}
+		// if _, ok := s.cache[bufStr]; ok { … }
+		if as, ok := x.Init.(*ast.AssignStmt); ok && len(as.Rhs) == 1 {
+			if ix, ok := as.Rhs[0].(*ast.IndexExpr); ok && text(ix.X) == m.recv+".cache" && text(x.Cond) == text(as.Lhs[1]) {
+				cond := &ast.CallExpr{Fun: ast.NewIdent("__cacheHas"), Args: []ast.Expr{ix.Index}}
+				ni := &ast.IfStmt{Cond: cond, Body: x.Body, Else: x.Else}
+				return m.block(append([]ast.Stmt{ni}, list[1:]...), c), true
+			}
+		}
+	}
+	return "", false
+}
+
+func (m *imp) acExpr(e ast.Expr, want gty) (string, gty, bool) {
+	if m.recvTy != "shrinker" {
+		return "", "", false
+	}
+	switch x := e.(type) {
+	case *ast.SelectorExpr:
+		if nodeText(m.p.fset, x) == m.recv+".rec.data" {
+			return m.fieldVar("rec_data"), "[]u64", true
+		}
+	case *ast.CallExpr:
+		fn := exprText(m.p.fset, x.Fun)
+		if fn == "__cacheHas" {
+			k, _ := m.expr(x.Args[0], "[]u64")
+			return "(" + m.fieldVar("cache") + ".contains " + k + ")", "bool", true
+		}
+	case *ast.BinaryExpr:
+		if x.Op == token.NEQ || x.Op == token.EQL {
+			fa, ca := callName(m.p, x.X)
+			fb, cb := callName(m.p, x.Y)
+			if fa == "traceback" && fb == "traceback" {
+				a, _ := m.expr(ca.Args[0], "errv")
+				b, _ := m.expr(cb.Args[0], "errv")
+				op := map[token.Token]string{token.NEQ: "!=", token.EQL: "=="}[x.Op]
+				return "(Rapid.tbKey " + a + " " + op + " Rapid.tbKey " + b + ")", "bool", true
+			}
 		}
 	}
 	return "", "", false
